@@ -170,6 +170,13 @@ type bState struct {
 	consts map[string]*Term // scalar variables pinned to constants by the path
 	calls  []string         // inlining stack (recursion guard)
 	branch map[string]bool  // path entries that are branch conditions (the others are facts: contract postconditions, ranges)
+	mapv   map[string]map[string]bMapEntry // what is known of the maps: identity -> rendered key -> entry (see mapLookup)
+}
+
+// bMapEntry: the value a map holds for a key, and whether the key is present.
+type bMapEntry struct {
+	val bVal
+	ok  *Term
 }
 
 func (s *bState) clone() *bState {
@@ -207,6 +214,16 @@ func (s *bState) clone() *bState {
 	}
 	n.path = append([]*Term(nil), s.path...)
 	n.calls = append([]string(nil), s.calls...)
+	if s.mapv != nil {
+		n.mapv = make(map[string]map[string]bMapEntry, len(s.mapv))
+		for k, m := range s.mapv {
+			nm := make(map[string]bMapEntry, len(m))
+			for kk, en := range m {
+				nm[kk] = bMapEntry{val: cloneVal(en.val), ok: en.ok}
+			}
+			n.mapv[k] = nm
+		}
+	}
 	if s.branch != nil {
 		n.branch = make(map[string]bool, len(s.branch))
 		for k, v := range s.branch {
@@ -269,7 +286,7 @@ func (s *bState) assume(t *Term) {
 					s.consts[a.Name] = b
 				}
 			}
-		} else if a.Op == "var" && b.Op == "app" && strings.HasPrefix(b.Name, "cmpval") && strings.Contains(a.Name, ".res") {
+		} else if a.Op == "var" && b.Op == "app" && (strings.HasPrefix(b.Name, "cmpval") || strings.HasPrefix(b.Name, "uf_")) && strings.Contains(a.Name, ".res") {
 			// the result of a comparison under contract is the (uninterpreted) outcome the contract names:
 			// a branch on it is then decided by what the preconditions say about that outcome
 			s.consts[a.Name] = b
